@@ -91,6 +91,9 @@ type c07Obs struct {
 }
 
 func (t *tabEnv) observe(ids []string) c07Obs {
+	if t.loopErr != "" { // the loop died, possibly with the table's mutex held: nothing can be read any more
+		return c07Obs{fails: map[string]int{}, loopErr: t.loopErr}
+	}
 	o := c07Obs{snap: t.vt.Snapshot(), pending: t.pendingIDs(), fails: map[string]int{}, loopErr: t.loopErr}
 	for _, id := range ids {
 		if !strings.HasPrefix(id, "F") && !strings.HasPrefix(id, "G") {
